@@ -1255,6 +1255,7 @@ static int32 tls13WriteCertificateVerify(ssl_t *ssl, sslBuf_t *out)
             if (rc < 0)
             {
                 psFree(ssl->sec.tls13CvSig, ssl->hsPool);
+                ssl->sec.tls13CvSig = NULL;
                 psFree(ssl->hsPool, tbs);
                 psDynBufUninit(&cvBuf);
                 psTraceErrr("Could not verify own sig!!\n");
@@ -1555,6 +1556,7 @@ static inline
 void tls13ClearHsTemporaryState(ssl_t *ssl)
 {
     psFree(ssl->sec.tls13CvSig, ssl->hsPool);
+    ssl->sec.tls13CvSig = NULL;
     Memset(&ssl->sec.tls13KsState, 0, sizeof(ssl->sec.tls13KsState));
 }
 
